@@ -289,7 +289,16 @@ class Executor:
         m = getattr(self, 'st_' + type(n).__name__, None)
         if m is None:
             raise Unsupported(f'statement {type(n).__name__} at {fr.fi.where}')
-        gh = self.specs.ghosts_for(fr.fi.qualname, n) if isinstance(n, (ast.Assign, ast.Expr, ast.AugAssign)) else None
+        simple = isinstance(n, (ast.Assign, ast.Expr, ast.AugAssign))
+        gb = self.specs.ghosts_before(fr.fi.qualname, n) if simple else None
+        if gb:
+            upd = [(name, self.specs.eval_ghost(self, text, st, fr)) for name, text in gb if '.' not in name]
+            for name, text in gb:
+                if '.' in name:
+                    self.specs.assign_ghost(self, name, text, st, fr)
+            for name, v in upd:
+                st.loc[name] = v
+        gh = self.specs.ghosts_for(fr.fi.qualname, n) if simple else None
         if not gh:
             yield from m(n, st, fr)
             return
@@ -582,8 +591,10 @@ class Executor:
             assigned |= _target_names(n.target)
         for sub in ast.walk(n):
             if isinstance(sub, (ast.Assign, ast.Expr, ast.AugAssign)):
-                for name, _ in (self.specs.ghosts_for(fr.fi.qualname, sub) or []):
-                    assigned.add(name)
+                for name, _ in (self.specs.ghosts_for(fr.fi.qualname, sub) or []) + \
+                        (self.specs.ghosts_before(fr.fi.qualname, sub) or []):
+                    if '.' not in name:
+                        assigned.add(name)
         for name in sorted(assigned):
             if name in hv.loc and isinstance(hv.loc[name], V) and hv.loc[name].kind != 'none':
                 old = hv.loc[name]
